@@ -1,7 +1,8 @@
 /-
   Helper lemmas for C01/C03 (readers): the bracket lexer as a maximal-munch tokenizer,
   one-step facts about the bracket automaton, a fuel-free reader loop, and the simulation
-  of the specification grammar (`spNode`/`spKids`/`spGroups`) by the automaton.
+  of the specification grammar (`spNode`/`spKids`/`spGroups`, and its variant `spNodeG` with the
+  reader's label function: `gf_split` together with empty POS tags) by the automaton.
 -/
 import TT.Spec.Formats
 import TT.IO.Read
@@ -278,6 +279,134 @@ theorem closeLast_snoc2 (q : List QNode) (p x : QNode) :
     closeLast (q ++ [p] ++ [x]) = q ++ [{ p with kids := p.kids ++ [x.toTree] }] := by
   simp [closeLast]
 
+/-! ### the grammar with the reader's label function
+
+  `spNodeG lf` is the specification grammar `spNode` (`TT/Spec/Formats.lean`) with ONE change: a node that has a label token
+  `w` AND a body (a word or children) gets the label `(lf w).1` and the edge label `(lf w).2`.  A token written without a tag
+  - `(w)`, read only with `brackets_emptypos` - keeps `w` as its word, exactly as written, and gets the default label and
+  edge.  With `lf w = (w, DEFAULT_EDGE)` this IS `spNode` (`spG_plain`). -/
+
+/-- label and edge label the reader gives a node with label token `w` -/
+def lfOf (o : InOpts) (w : Str) : Str × Str :=
+  if o.gfSplit then gfSplitLabel (o.gfSeparator.getD DEFAULT_GF_SEP) w else (w, DEFAULT_EDGE)
+
+/-- the label function without `gf_split` -/
+def lfPlain (w : Str) : Str × Str := (w, DEFAULT_EDGE)
+
+theorem lfOf_plain (o : InOpts) (hg : o.gfSplit = false) : lfOf o = lfPlain := by
+  funext w; simp [lfOf, lfPlain, hg]
+
+mutual
+def spNodeG (lf : Str → Str × Str) (emptyPos root : Bool) : Nat → Str → Nat → Option (Tree × Str × Nat)
+  | 0, _, _ => none
+  | fuel + 1, '(' :: r, cnt =>
+    let r1 := skipWs r
+    let label := r1.takeWhile isTokC
+    let r2 := r1.drop label.length
+    if label.isEmpty && !root then none else
+    match r2 with
+    | ')' :: r3 =>
+      if emptyPos && !label.isEmpty then
+        some (leaf cnt { label := DEFAULT_LABEL, word := some label, edge := some DEFAULT_EDGE, morph := some DEFAULT_MORPH }, r3, cnt + 1)
+      else none
+    | _ =>
+      let r3 := skipWs r2
+      let hadWs := r3.length < r2.length
+      match r3 with
+      | '(' :: _ =>
+        match spKidsG lf emptyPos fuel r3 cnt [] with
+        | some (ks, rest, cnt') =>
+          if ks.isEmpty then none
+          else some (node (if label.isEmpty then { label := DEFAULT_ROOT } else { label := (lf label).1, edge := some (lf label).2, morph := some DEFAULT_MORPH }) ks, rest, cnt')
+        | none => none
+      | c :: _ =>
+        if hadWs && isTokC c && !label.isEmpty then
+          let word := r3.takeWhile isTokC
+          match skipWs (r3.drop word.length) with
+          | ')' :: r4 => some (leaf cnt { label := (lf label).1, word := some word, edge := some (lf label).2, morph := some DEFAULT_MORPH }, r4, cnt + 1)
+          | _ => none
+        else none
+      | [] => none
+  | _, _, _ => none
+def spKidsG (lf : Str → Str × Str) (emptyPos : Bool) : Nat → Str → Nat → List Tree → Option (List Tree × Str × Nat)
+  | 0, _, _, _ => none
+  | fuel + 1, s, cnt, acc =>
+    match skipWs s with
+    | ')' :: r => some (acc.reverse, r, cnt)
+    | '(' :: r =>
+      match spNodeG lf emptyPos false fuel ('(' :: r) cnt with
+      | some (k, rest, cnt') => spKidsG lf emptyPos fuel rest cnt' (k :: acc)
+      | none => none
+    | _ => none
+end
+
+def spGroupsG (lf : Str → Str × Str) (emptyPos : Bool) : Nat → Str → List Tree → Option (List Tree)
+  | 0, _, _ => none
+  | _, [], acc => some acc.reverse
+  | fuel + 1, '(' :: r, acc =>
+    match spNodeG lf emptyPos true (2 * r.length + 4) ('(' :: r) 1 with
+    | some (t, rest, _) => spGroupsG lf emptyPos fuel rest (t :: acc)
+    | none => none
+  | fuel + 1, _ :: r, acc => spGroupsG lf emptyPos fuel r acc
+
+/-- the trees of a bracket file under the label function `lf` -/
+def specBracketsG (lf : Str → Str × Str) (emptyPos : Bool) (text : Str) : Option (List Tree) :=
+  spGroupsG lf emptyPos (2 * text.length + 2) text []
+
+theorem spNodeG_notlrb (lf) (ep root : Bool) (fuel : Nat) (c : Char) (r : Str) (cnt : Nat) (hc : c ≠ '(') :
+    spNodeG lf ep root fuel (c :: r) cnt = none := by
+  unfold spNodeG
+  split
+  · rfl
+  · rename_i heq; injection heq with h1; exact absurd h1 hc
+  · rfl
+
+theorem spNode_notlrb (ep root : Bool) (fuel : Nat) (c : Char) (r : Str) (cnt : Nat) (hc : c ≠ '(') :
+    spNode ep root fuel (c :: r) cnt = none := by
+  unfold spNode
+  split
+  · rfl
+  · rename_i heq; injection heq with h1; exact absurd h1 hc
+  · rfl
+
+theorem spG_plain (ep : Bool) : ∀ fuel,
+    (∀ root s cnt, spNodeG lfPlain ep root fuel s cnt = spNode ep root fuel s cnt) ∧
+    (∀ s cnt acc, spKidsG lfPlain ep fuel s cnt acc = spKids ep fuel s cnt acc) := by
+  intro fuel
+  induction fuel with
+  | zero => exact ⟨fun _ _ _ => by simp [spNodeG, spNode], fun _ _ _ => by simp [spKidsG, spKids]⟩
+  | succ fuel ih =>
+    constructor
+    · intro root s cnt
+      cases s with
+      | nil => simp [spNodeG, spNode]
+      | cons c r =>
+        by_cases hc : c = '('
+        · subst hc; simp only [spNodeG, spNode, ih.2, lfPlain]; rfl
+        · rw [spNodeG_notlrb _ _ _ _ _ _ _ hc, spNode_notlrb _ _ _ _ _ _ hc]
+    · intro s cnt acc
+      simp only [spKidsG, spKids, ih.1, ih.2]; rfl
+
+theorem spGroupsG_plain (ep : Bool) : ∀ fuel s acc, spGroupsG lfPlain ep fuel s acc = spGroups ep fuel s acc := by
+  intro fuel
+  induction fuel with
+  | zero => intro s acc; simp [spGroupsG, spGroups]
+  | succ fuel ih =>
+    intro s acc
+    cases s with
+    | nil => simp [spGroupsG, spGroups]
+    | cons c r =>
+      by_cases hc : c = '('
+      · subst hc; simp only [spGroupsG, spGroups, (spG_plain ep _).1, ih]; rfl
+      · have h1 : spGroupsG lfPlain ep (fuel + 1) (c :: r) acc = spGroupsG lfPlain ep fuel r acc := by
+          rw [spGroupsG]; intro h; exact hc h
+        have h2 : spGroups ep (fuel + 1) (c :: r) acc = spGroups ep fuel r acc := by
+          rw [spGroups]; intro h; exact hc h
+        rw [h1, h2, ih]
+
+theorem specBracketsG_plain (ep : Bool) (text : Str) : specBracketsG lfPlain ep text = specBrackets ep text :=
+  spGroupsG_plain ep _ _ _
+
 /-! ### single steps -/
 section steps
 variable (o : InOpts) (st : BrState) (w : Str)
@@ -307,7 +436,7 @@ theorem step_rrb_2_noEmpty (h : st.state = 2) (he : o.emptyPos = false) : brStep
   simp [brStep, h, he]
 
 theorem step_rrb_2_empty (h : st.state = 2) (he : o.emptyPos = true) : brStep o st (w, .rrb) =
-    brStep o { st with state := 4, termCnt := st.termCnt + 1, queue := updLast st.queue (fun q => { q with f := { q.f with word := some q.f.label, label := DEFAULT_LABEL, edge := some DEFAULT_EDGE, morph := some DEFAULT_MORPH }, num := some st.termCnt }) } (w, .rrb) := by
+    brStep o { st with state := 4, termCnt := st.termCnt + 1, queue := updLast st.queue (fun q => { q with f := { q.f with word := some q.raw, label := DEFAULT_LABEL, edge := some DEFAULT_EDGE, morph := some DEFAULT_MORPH }, num := some st.termCnt }) } (w, .rrb) := by
   simp [brStep, h, he]
 
 theorem step_rrb_close (h : st.state = 4 ∨ st.state = 5) (q : List QNode) (p x : QNode) (L : Nat)
@@ -331,8 +460,12 @@ theorem step_token_0 (h : st.state = 0) : brStep o st (w, .token) = .ok (st, non
   simp [brStep, h]
 
 theorem step_token_19 (h : st.state = 1 ∨ st.state = 9) (hg : o.gfSplit = false) : brStep o st (w, .token) =
-    .ok ({ st with queue := updLast st.queue (fun q => { q with f := { q.f with label := w, edge := some DEFAULT_EDGE, morph := some DEFAULT_MORPH } }), state := 2 }, none) := by
+    .ok ({ st with queue := updLast st.queue (fun q => { q with f := { q.f with label := w, edge := some DEFAULT_EDGE, morph := some DEFAULT_MORPH }, raw := w }), state := 2 }, none) := by
   rcases h with h | h <;> simp [brStep, h, hg]
+
+theorem step_token_19G (h : st.state = 1 ∨ st.state = 9) : brStep o st (w, .token) =
+    .ok ({ st with queue := updLast st.queue (fun q => { q with f := { q.f with label := (lfOf o w).1, edge := some (lfOf o w).2, morph := some DEFAULT_MORPH }, raw := w }), state := 2 }, none) := by
+  cases hg : o.gfSplit <;> rcases h with h | h <;> simp [brStep, h, hg, lfOf]
 
 theorem step_token_3 (h : st.state = 3) : brStep o st (w, .token) =
     .ok ({ st with queue := updLast st.queue (fun q => { q with f := { q.f with word := some w }, num := some st.termCnt }), termCnt := st.termCnt + 1, state := 4 }, none) := by
@@ -551,7 +684,7 @@ def BodyPost (o : InOpts) (st : BrState) (q : List QNode) (r : Str) : Option (Tr
 def BodySpec (o : InOpts) (f : Nat) : Prop :=
   ∀ (root : Bool) (r : Str) (cnt : Nat) (st : BrState) (q : List QNode) (L : Nat),
     2 * r.length + 3 ≤ f → st.state = (if root then 9 else 1) → st.queue = q ++ [({} : QNode)] → st.level = L + 1 → st.termCnt = cnt →
-    BodyPost o st q r (spNode o.emptyPos root f ('(' :: r) cnt)
+    BodyPost o st q r (spNodeG (lfOf o) o.emptyPos root f ('(' :: r) cnt)
 
 /-- a complete inner node: attached to its parent `p`, state 5 -/
 def NodePost (o : InOpts) (st : BrState) (q : List QNode) (p : QNode) (r : Str) : Option (Tree × Str × Nat) → Prop
@@ -563,7 +696,7 @@ def NodePost (o : InOpts) (st : BrState) (q : List QNode) (p : QNode) (r : Str) 
 def NodeSpec (o : InOpts) (f : Nat) : Prop :=
   ∀ (r : Str) (cnt : Nat) (st : BrState) (q : List QNode) (p : QNode) (L : Nat),
     2 * r.length + 3 ≤ f → (st.state = 2 ∨ st.state = 3 ∨ st.state = 5) → st.queue = q ++ [p] → st.level = L + 1 → st.termCnt = cnt →
-    NodePost o st q p r (spNode o.emptyPos false f ('(' :: r) cnt)
+    NodePost o st q p r (spNodeG (lfOf o) o.emptyPos false f ('(' :: r) cnt)
 
 /-- the children of `p` up to (not including) the closing ")" of `p` -/
 def KidsPost (o : InOpts) (st : BrState) (q : List QNode) (p : QNode) (s : Str) (acc : List Tree) :
@@ -577,7 +710,7 @@ def KidsSpec (o : InOpts) (f : Nat) : Prop :=
   ∀ (s : Str) (cnt : Nat) (acc : List Tree) (st : BrState) (q : List QNode) (p : QNode) (L : Nat),
     2 * s.length + 2 ≤ f → (st.state = 5 ∨ ((st.state = 2 ∨ st.state = 3) ∧ ∃ r', skipWs s = '(' :: r')) →
     st.queue = q ++ [p] → st.level = L + 1 → st.termCnt = cnt →
-    KidsPost o st q p s acc (spKids o.emptyPos f s cnt acc)
+    KidsPost o st q p s acc (spKidsG (lfOf o) o.emptyPos f s cnt acc)
 
 theorem node_of_body (o : InOpts) (f : Nat) (B : BodySpec o f) : NodeSpec o f := by
   intro r cnt st q p L hf hs hq hl hc
@@ -589,7 +722,7 @@ theorem node_of_body (o : InOpts) (f : Nat) (B : BodySpec o f) : NodeSpec o f :=
     rw [lex_lrb]
     exact brRun_none o _ _ _ _ (by rw [step_lrb_235 o _ _ hs])
   have hB := B false r termCnt ⟨1, L + 2, q ++ [p] ++ [({} : QNode)], termCnt, cnt0, out⟩ (q ++ [p]) (L + 1) hf rfl rfl rfl rfl
-  cases hsp : spNode o.emptyPos false f ('(' :: r) termCnt with
+  cases hsp : spNodeG (lfOf o) o.emptyPos false f ('(' :: r) termCnt with
   | none =>
     rw [hsp] at hB
     obtain ⟨e, he⟩ := hB
@@ -612,7 +745,7 @@ theorem kids_step (o : InOpts) (f : Nat) (N : NodeSpec o f) (K : KidsSpec o f) :
   -- whitespace in front of the next child
   cases hsk : skipWs s with
   | nil =>
-    have : spKids o.emptyPos (f + 1) s termCnt acc = none := by simp [spKids, hsk]
+    have : spKidsG (lfOf o) o.emptyPos (f + 1) s termCnt acc = none := by simp [spKidsG, hsk]
     rw [this]
     exact run_skipWs_nil o _ hlev s hsk
   | cons c cs =>
@@ -640,23 +773,23 @@ theorem kids_step (o : InOpts) (f : Nat) (N : NodeSpec o f) (K : KidsSpec o f) :
           · rcases hs with h | ⟨h | h, _⟩ <;> simp [h]
           · rw [run_skipWs o _ h2 s (by rw [hsk]; simp), hsk]
       have hN := N cs termCnt ⟨state', L + 1, q ++ [p], termCnt, cnt0, out⟩ q p L (by omega) hs' rfl rfl rfl
-      cases hsp : spNode o.emptyPos false f ('(' :: cs) termCnt with
+      cases hsp : spNodeG (lfOf o) o.emptyPos false f ('(' :: cs) termCnt with
       | none =>
-        have : spKids o.emptyPos (f + 1) s termCnt acc = none := by simp [spKids, hsk, hsp]
+        have : spKidsG (lfOf o) o.emptyPos (f + 1) s termCnt acc = none := by simp [spKidsG, hsk, hsp]
         rw [this]
         rw [hsp] at hN
         obtain ⟨e, he⟩ := hN
         exact ⟨e, by rw [hrun, he]⟩
       | some v =>
         obtain ⟨k, rest, cnt'⟩ := v
-        have : spKids o.emptyPos (f + 1) s termCnt acc = spKids o.emptyPos f rest cnt' (k :: acc) := by
-          simp [spKids, hsk, hsp]
+        have : spKidsG (lfOf o) o.emptyPos (f + 1) s termCnt acc = spKidsG (lfOf o) o.emptyPos f rest cnt' (k :: acc) := by
+          simp [spKidsG, hsk, hsp]
         rw [this]
         rw [hsp] at hN
         obtain ⟨hlen', hrunN⟩ := hN
         have hK := K rest cnt' (k :: acc) ⟨5, L + 1, q ++ [{ p with kids := p.kids ++ [k] }], cnt', cnt0, out⟩ q
           { p with kids := p.kids ++ [k] } L (by omega) (.inl rfl) rfl rfl rfl
-        cases hsk2 : spKids o.emptyPos f rest cnt' (k :: acc) with
+        cases hsk2 : spKidsG (lfOf o) o.emptyPos f rest cnt' (k :: acc) with
         | none =>
           rw [hsk2] at hK
           obtain ⟨e, he⟩ := hK
@@ -669,7 +802,7 @@ theorem kids_step (o : InOpts) (f : Nat) (N : NodeSpec o f) (K : KidsSpec o f) :
           rw [hrun, hrunN, hrunK]
           simp
     · -- the closing parenthesis of the parent
-      have : spKids o.emptyPos (f + 1) s termCnt acc = some (acc.reverse, cs, termCnt) := by simp [spKids, hsk]
+      have : spKidsG (lfOf o) o.emptyPos (f + 1) s termCnt acc = some (acc.reverse, cs, termCnt) := by simp [spKidsG, hsk]
       rw [this]
       have h5 : state = 5 := by
         rcases hs with h | ⟨_, r', hr'⟩
@@ -681,9 +814,9 @@ theorem kids_step (o : InOpts) (f : Nat) (N : NodeSpec o f) (K : KidsSpec o f) :
       simp
     · rw [hcw] at hcc; cases hcc
     · -- a token where a child or ")" is expected
-      have : spKids o.emptyPos (f + 1) s termCnt acc = none := by
+      have : spKidsG (lfOf o) o.emptyPos (f + 1) s termCnt acc = none := by
         obtain ⟨_, h1, h2⟩ := (isTokC_iff c).1 hcc
-        simp only [spKids, hsk]
+        simp only [spKidsG, hsk]
         split
         · rename_i heq; cases heq; exact absurd rfl h2
         · rename_i heq; cases heq; exact absurd rfl h1
@@ -715,14 +848,14 @@ theorem TailPost.mono {o run L q cnt0 out n n' res} (h : TailPost o run L q cnt0
 
 /-- children of a constituent whose label has been read (state 2 or 3, next character "(") -/
 theorem tail_kids (o : InOpts) (f : Nat) (K : KidsSpec o f) (s2 L : Nat) (q : List QNode) (F : Fields) (termCnt cnt0 : Nat)
-    (out : List (Nat × Tree)) (tl : Str) (hs2 : s2 = 2 ∨ s2 = 3) (hf : 2 * (tl.length + 1) + 2 ≤ f) :
-    TailPost o (brRun o ⟨s2, L + 1, q ++ [{ f := F }], termCnt, cnt0, out⟩ (bracketLex ('(' :: tl))) L q cnt0 out (tl.length + 1)
-      (match spKids o.emptyPos f ('(' :: tl) termCnt [] with
+    (out : List (Nat × Tree)) (tl : Str) (hs2 : s2 = 2 ∨ s2 = 3) (hf : 2 * (tl.length + 1) + 2 ≤ f) (R : Str) :
+    TailPost o (brRun o ⟨s2, L + 1, q ++ [{ f := F, raw := R }], termCnt, cnt0, out⟩ (bracketLex ('(' :: tl))) L q cnt0 out (tl.length + 1)
+      (match spKidsG (lfOf o) o.emptyPos f ('(' :: tl) termCnt [] with
         | some (ks, rest, cnt') => if ks.isEmpty = true then none else some (node F ks, rest, cnt')
         | none => none) := by
-  have hK := K ('(' :: tl) termCnt [] ⟨s2, L + 1, q ++ [{ f := F }], termCnt, cnt0, out⟩ q { f := F } L (by simpa using hf)
+  have hK := K ('(' :: tl) termCnt [] ⟨s2, L + 1, q ++ [{ f := F, raw := R }], termCnt, cnt0, out⟩ q { f := F, raw := R } L (by simpa using hf)
     (.inr ⟨hs2, tl, skipWs_cons_not _ _ isWsC_lrb⟩) rfl rfl rfl
-  cases hsp : spKids o.emptyPos f ('(' :: tl) termCnt [] with
+  cases hsp : spKidsG (lfOf o) o.emptyPos f ('(' :: tl) termCnt [] with
   | none =>
     rw [hsp] at hK
     exact hK
@@ -733,14 +866,14 @@ theorem tail_kids (o : InOpts) (f : Nat) (K : KidsSpec o f) (s2 L : Nat) (q : Li
     have hne' : new ≠ [] := hne (by rcases hs2 with rfl | rfl <;> simp)
     have : ks.isEmpty = false := by cases new <;> simp_all
     simp only [this]
-    refine ⟨{ f := F, kids := new }, 5, ?_, .inr rfl, by simpa using hlen, ?_⟩
+    refine ⟨{ f := F, kids := new, raw := R }, 5, ?_, .inr rfl, by simpa using hlen, ?_⟩
     · simp [QNode.toTree, hks]
     · rw [hrun]; simp
 
 /-- the word of a token whose label has been read (state 3) -/
 theorem tail_word (o : InOpts) (L : Nat) (q : List QNode) (F : Fields) (termCnt cnt0 : Nat)
-    (out : List (Nat × Tree)) (c : Char) (tl : Str) (hc : isTokC c = true) :
-    TailPost o (brRun o ⟨3, L + 1, q ++ [{ f := F }], termCnt, cnt0, out⟩ (bracketLex (c :: tl))) L q cnt0 out (tl.length + 1)
+    (out : List (Nat × Tree)) (c : Char) (tl : Str) (hc : isTokC c = true) (R : Str) :
+    TailPost o (brRun o ⟨3, L + 1, q ++ [{ f := F, raw := R }], termCnt, cnt0, out⟩ (bracketLex (c :: tl))) L q cnt0 out (tl.length + 1)
       (match skipWs ((c :: tl).dropWhile isTokC) with
         | ')' :: r4 => some (leaf termCnt { F with word := some ((c :: tl).takeWhile isTokC) }, r4, termCnt + 1)
         | _ => none) := by
@@ -761,7 +894,7 @@ theorem tail_word (o : InOpts) (L : Nat) (q : List QNode) (F : Fields) (termCnt 
       rw [run_skipWs o _ (by simp) r4 (by rw [hr5]; simp), hr5]
       rcases char_cases g with rfl | rfl | hgc | hgc
       · exact ⟨_, by rw [lex_lrb]; exact brRun_err o _ _ _ _ (step_lrb_14 o _ _ (.inr rfl))⟩
-      · refine ⟨{ f := { F with word := some word }, num := some termCnt }, 4, by simp [QNode.toTree], .inl rfl, ?_, rfl⟩
+      · refine ⟨{ f := { F with word := some word }, num := some termCnt, raw := R }, 4, by simp [QNode.toTree], .inl rfl, ?_, rfl⟩
         simp at hlen5; omega
       · rw [skipWs_head r4 g gs hr5] at hgc; cases hgc
       · split
@@ -775,14 +908,14 @@ theorem bodyPost_of_tail (o : InOpts) (s L : Nat) (qu q : List QNode) (termCnt c
   | none => exact h
   | some v => exact h
 
-theorem body_step (o : InOpts) (hg : o.gfSplit = false) (f : Nat) (K : KidsSpec o f) : BodySpec o (f + 1) := by
+theorem body_step (o : InOpts) (f : Nat) (K : KidsSpec o f) : BodySpec o (f + 1) := by
   intro root r cnt st q L hf hs hq hl hc
   obtain ⟨state, level, queue, termCnt, cnt0, out⟩ := st
   simp only at hs hq hl hc
   subst hs hq hl hc
   apply bodyPost_of_tail
-  generalize hres : spNode o.emptyPos root (f + 1) ('(' :: r) termCnt = res
-  simp only [spNode, drop_takeWhile_length] at hres
+  generalize hres : spNodeG (lfOf o) o.emptyPos root (f + 1) ('(' :: r) termCnt = res
+  simp only [spNodeG, drop_takeWhile_length] at hres
   have hst12 : (if root = true then 9 else 1) ≠ 2 := by cases root <;> simp
   cases hr1 : skipWs r with
   | nil =>
@@ -809,7 +942,7 @@ theorem body_step (o : InOpts) (hg : o.gfSplit = false) (f : Nat) (K : KidsSpec 
         rw [lex_lrb, run_congr o _ _ _ _ (step_lrb_9 o _ _ rfl) rfl]
         simp only [updLast_snoc]
         rw [← lex_lrb]
-        exact (tail_kids o f K 2 L q { label := DEFAULT_ROOT } termCnt cnt0 out cs (.inl rfl) (by omega)).mono (by omega)
+        exact (tail_kids o f K 2 L q { label := DEFAULT_ROOT } termCnt cnt0 out cs (.inl rfl) (by omega) _).mono (by omega)
     · -- ")" directly after "("
       have : res = none := by
         rw [← hres]; cases root <;> simp [List.takeWhile, List.dropWhile, isTokC_rrb]
@@ -823,7 +956,7 @@ theorem body_step (o : InOpts) (hg : o.gfSplit = false) (f : Nat) (K : KidsSpec 
       · have : res = none := by rw [← hres, h2]; simp [skipWs_nil]
         subst this
         exact ⟨_, by rw [(lex_tok c cs hcc).1 h2]; exact brRun_nil_err o _ (by simp)⟩
-      · rw [(lex_tok c cs hcc).2 h2, brRun_none o _ _ _ _ (step_token_19 o _ _ (by cases root <;> simp) hg)]
+      · rw [(lex_tok c cs hcc).2 h2, brRun_none o _ _ _ _ (step_token_19G o _ _ (by cases root <;> simp))]
         simp only [updLast_snoc]
         have hlen2 : ((c :: cs).dropWhile isTokC).length ≤ cs.length := by
           simpa [List.dropWhile, hcc] using dropWhile_length_le isTokC cs
@@ -839,7 +972,7 @@ theorem body_step (o : InOpts) (hg : o.gfSplit = false) (f : Nat) (K : KidsSpec 
           · -- "(label(" : a constituent
             simp only [skipWs_cons_not _ _ isWsC_lrb] at hres
             subst hres
-            exact (tail_kids o f K 2 L q _ termCnt cnt0 out ds (.inl rfl) (by omega)).mono (by omega)
+            exact (tail_kids o f K 2 L q _ termCnt cnt0 out ds (.inl rfl) (by omega) _).mono (by omega)
           · -- "(label)" : empty POS
             simp only at hres
             cases hep : o.emptyPos with
@@ -851,7 +984,7 @@ theorem body_step (o : InOpts) (hg : o.gfSplit = false) (f : Nat) (K : KidsSpec 
               have : res = some (leaf termCnt { label := DEFAULT_LABEL, word := some label, morph := some DEFAULT_MORPH, edge := some DEFAULT_EDGE }, ds, termCnt + 1) := by
                 rw [← hres]; simp [hep]
               subst this
-              refine ⟨{ f := { label := DEFAULT_LABEL, word := some label, morph := some DEFAULT_MORPH, edge := some DEFAULT_EDGE }, num := some termCnt }, 4,
+              refine ⟨{ f := { label := DEFAULT_LABEL, word := some label, morph := some DEFAULT_MORPH, edge := some DEFAULT_EDGE }, num := some termCnt, raw := label }, 4,
                 by simp [QNode.toTree], .inl rfl, by omega, ?_⟩
               rw [lex_rrb, run_congr o _ _ _ _ (step_rrb_2_empty o _ _ rfl hep) rfl]
               simp only [updLast_snoc]
@@ -875,7 +1008,7 @@ theorem body_step (o : InOpts) (hg : o.gfSplit = false) (f : Nat) (K : KidsSpec 
               rcases char_cases e with rfl | rfl | hec | hec
               · simp only at hres
                 subst hres
-                exact (tail_kids o f K 3 L q _ termCnt cnt0 out es (.inr rfl) (by omega)).mono (by omega)
+                exact (tail_kids o f K 3 L q _ termCnt cnt0 out es (.inr rfl) (by omega) _).mono (by omega)
               · have : res = none := by rw [← hres]; simp [isTokC_rrb]
                 subst this
                 exact ⟨_, by rw [lex_rrb]; exact brRun_err o _ _ _ _ (step_rrb_139 o _ _ (.inr (.inl rfl)))⟩
@@ -885,11 +1018,11 @@ theorem body_step (o : InOpts) (hg : o.gfSplit = false) (f : Nat) (K : KidsSpec 
                 · rename_i heq; cases heq
                   simp only [hec, if_true] at hres
                   subst hres
-                  exact (tail_word o L q { label := label, morph := some DEFAULT_MORPH, edge := some DEFAULT_EDGE } termCnt cnt0 out _ _ hec).mono (by omega)
+                  exact (tail_word o L q { label := (lfOf o label).1, morph := some DEFAULT_MORPH, edge := some (lfOf o label).2 } termCnt cnt0 out _ _ hec _).mono (by omega)
                 · rename_i heq; cases heq
           · rw [hdt] at hdc; cases hdc
 
-theorem sim_all (o : InOpts) (hg : o.gfSplit = false) : ∀ f, BodySpec o f ∧ KidsSpec o f := by
+theorem sim_all (o : InOpts) : ∀ f, BodySpec o f ∧ KidsSpec o f := by
   intro f
   induction f with
   | zero =>
@@ -897,12 +1030,12 @@ theorem sim_all (o : InOpts) (hg : o.gfSplit = false) : ∀ f, BodySpec o f ∧ 
     · intro root r cnt st q L hf; omega
     · intro s cnt acc st q p L hf; omega
   | succ f ih =>
-    exact ⟨body_step o hg f ih.2, kids_step o f (node_of_body o f ih.1) ih.2⟩
+    exact ⟨body_step o f ih.2, kids_step o f (node_of_body o f ih.1) ih.2⟩
 
 /-- one complete group at top level: the tree is delivered with the current sentence id -/
-theorem root_group (o : InOpts) (hg : o.gfSplit = false) (hr : o.replaceParens = false) (f : Nat) (r : Str) (cnt0 : Nat)
+theorem root_group (o : InOpts) (hr : o.replaceParens = false) (f : Nat) (r : Str) (cnt0 : Nat)
     (out : List (Nat × Tree)) (hf : 2 * r.length + 3 ≤ f) :
-    match spNode o.emptyPos true f ('(' :: r) 1 with
+    match spNodeG (lfOf o) o.emptyPos true f ('(' :: r) 1 with
     | some (t, rest, _) => rest.length < r.length + 1 ∧
         brRun o ⟨0, 0, [], 1, cnt0, out⟩ (bracketLex ('(' :: r)) = brRun o ⟨0, 0, [], 1, cnt0 + 1, (cnt0, t) :: out⟩ (bracketLex rest)
     | none => ∃ e, brRun o ⟨0, 0, [], 1, cnt0, out⟩ (bracketLex ('(' :: r)) = .error e := by
@@ -910,8 +1043,8 @@ theorem root_group (o : InOpts) (hg : o.gfSplit = false) (hr : o.replaceParens =
       brRun o ⟨9, 1, [] ++ [({} : QNode)], 1, cnt0, out⟩ (bracketLex r) := by
     rw [lex_lrb]
     exact brRun_none o _ _ _ _ (by rw [step_lrb_0 o _ _ rfl])
-  have hB := (sim_all o hg f).1 true r 1 ⟨9, 1, [] ++ [({} : QNode)], 1, cnt0, out⟩ [] 0 hf rfl rfl rfl rfl
-  cases hsp : spNode o.emptyPos true f ('(' :: r) 1 with
+  have hB := (sim_all o f).1 true r 1 ⟨9, 1, [] ++ [({} : QNode)], 1, cnt0, out⟩ [] 0 hf rfl rfl rfl rfl
+  cases hsp : spNodeG (lfOf o) o.emptyPos true f ('(' :: r) 1 with
   | none =>
     rw [hsp] at hB
     obtain ⟨e, he⟩ := hB
@@ -971,9 +1104,9 @@ theorem run0_junk (o : InOpts) (st : BrState) (h0 : st.state = 0) (c : Char) (cs
     rw [lexAux_tokc c cs _ _ hcc, run0_ws o st h0, run0_buf o st h0]
 
 /-- the whole text -/
-theorem groups_sim (o : InOpts) (hg : o.gfSplit = false) (hr : o.replaceParens = false) :
+theorem groups_sim (o : InOpts) (hr : o.replaceParens = false) :
     ∀ (fuel : Nat) (s : Str) (acc : List Tree) (cnt0 : Nat) (out : List (Nat × Tree)), s.length + 1 ≤ fuel →
-    match spGroups o.emptyPos fuel s acc with
+    match spGroupsG (lfOf o) o.emptyPos fuel s acc with
     | some ts => ∃ new, ts = acc.reverse ++ new ∧
         brRun o ⟨0, 0, [], 1, cnt0, out⟩ (bracketLex s) = .ok (out.reverse ++ (List.range' cnt0 new.length).zip new)
     | none => ∃ e, brRun o ⟨0, 0, [], 1, cnt0, out⟩ (bracketLex s) = .error e := by
@@ -984,15 +1117,15 @@ theorem groups_sim (o : InOpts) (hg : o.gfSplit = false) (hr : o.replaceParens =
     intro s acc cnt0 out hf
     cases s with
     | nil =>
-      simp only [spGroups]
+      simp only [spGroupsG]
       exact ⟨[], by simp, by simp [lex_nil, brRun]⟩
     | cons c r =>
       simp only [List.length_cons] at hf
       by_cases hc : c = '('
       · subst hc
-        simp only [spGroups]
-        have hR := root_group o hg hr (2 * r.length + 4) r cnt0 out (by omega)
-        cases hsp : spNode o.emptyPos true (2 * r.length + 4) ('(' :: r) 1 with
+        simp only [spGroupsG]
+        have hR := root_group o hr (2 * r.length + 4) r cnt0 out (by omega)
+        cases hsp : spNodeG (lfOf o) o.emptyPos true (2 * r.length + 4) ('(' :: r) 1 with
         | none =>
           rw [hsp] at hR
           exact hR
@@ -1002,7 +1135,7 @@ theorem groups_sim (o : InOpts) (hg : o.gfSplit = false) (hr : o.replaceParens =
           obtain ⟨hlen, hrun⟩ := hR
           have hI := ih rest (t :: acc) (cnt0 + 1) ((cnt0, t) :: out) (by omega)
           simp only
-          cases hsg : spGroups o.emptyPos fuel rest (t :: acc) with
+          cases hsg : spGroupsG (lfOf o) o.emptyPos fuel rest (t :: acc) with
           | none =>
             rw [hsg] at hI
             obtain ⟨e, he⟩ := hI
@@ -1013,8 +1146,8 @@ theorem groups_sim (o : InOpts) (hg : o.gfSplit = false) (hr : o.replaceParens =
             refine ⟨t :: new, by simp [hts], ?_⟩
             rw [hrun, hrun2]
             simp [List.range'_succ]
-      · have hsp : spGroups o.emptyPos (fuel + 1) (c :: r) acc = spGroups o.emptyPos fuel r acc := by
-          rw [spGroups]
+      · have hsp : spGroupsG (lfOf o) o.emptyPos (fuel + 1) (c :: r) acc = spGroupsG (lfOf o) o.emptyPos fuel r acc := by
+          rw [spGroupsG]
           intro h; exact hc h
         rw [hsp, run0_junk o _ rfl c r hc]
         exact ih r acc cnt0 out (by omega)
@@ -1032,17 +1165,18 @@ end
 
 theorem sameTree_refl (t : Tree) : sameTree t t = true := beq_refl _
 
-/-- the reader (without label-rewriting options and without the disco post-pass) against the grammar -/
-theorem readBrackets_spec (o : InOpts) (hg : o.gfSplit = false) (hr : o.replaceParens = false) (hd : o.disco = false) (text : Str) :
-    match specBrackets o.emptyPos text with
+/-- the reader without the disco post-pass and without `replace_parens`, but WITH `gf_split` (and any separator) and
+    `brackets_emptypos` together: the grammar with the reader's label function -/
+theorem readBrackets_specG (o : InOpts) (hr : o.replaceParens = false) (hd : o.disco = false) (text : Str) :
+    match specBracketsG (lfOf o) o.emptyPos text with
     | some ts => readBrackets o text = .ok ((List.range' (o.firstId.getD 1) ts.length).zip ts)
     | none => ∃ e, readBrackets o text = .error e := by
-  have hG := groups_sim o hg hr (2 * text.length + 2) text [] (o.firstId.getD 1) [] (by omega)
+  have hG := groups_sim o hr (2 * text.length + 2) text [] (o.firstId.getD 1) [] (by omega)
   have hrd : readBrackets o text = brRun o ⟨0, 0, [], 1, o.firstId.getD 1, []⟩ (bracketLex text) := by
     unfold readBrackets
     exact brLoop_eq_brRun o hd _ _ _ (by omega)
-  unfold specBrackets
-  cases hsp : spGroups o.emptyPos (2 * text.length + 2) text [] with
+  unfold specBracketsG
+  cases hsp : spGroupsG (lfOf o) o.emptyPos (2 * text.length + 2) text [] with
   | none =>
     rw [hsp] at hG
     obtain ⟨e, he⟩ := hG
@@ -1054,5 +1188,21 @@ theorem readBrackets_spec (o : InOpts) (hg : o.gfSplit = false) (hr : o.replaceP
     subst hts
     simp only
     rw [hrd, hrun]
+
+/-- the reader (without label-rewriting options and without the disco post-pass) against the grammar -/
+theorem readBrackets_spec (o : InOpts) (hg : o.gfSplit = false) (hr : o.replaceParens = false) (hd : o.disco = false) (text : Str) :
+    match specBrackets o.emptyPos text with
+    | some ts => readBrackets o text = .ok ((List.range' (o.firstId.getD 1) ts.length).zip ts)
+    | none => ∃ e, readBrackets o text = .error e := by
+  have h := readBrackets_specG o hr hd text
+  rw [lfOf_plain o hg, specBracketsG_plain] at h
+  exact h
+
+/-- `(U-Bahn)` with `gf_split` and `brackets_emptypos`: the word is the token as written; `NP-SB` is split -/
+example : (specBracketsG (lfOf { gfSplit := true, emptyPos := true }) true "(S (NP-SB (U-Bahn)))".toList).map
+      (·.map fun t => t.subtrees.map fun s => (s.fields.label, s.fields.edge)) =
+      some [[("S".toList, some "--".toList), ("NP".toList, some "SB".toList), ("EMPTY".toList, some "--".toList)]] ∧
+    (specBracketsG (lfOf { gfSplit := true, emptyPos := true }) true "(S (NP-SB (U-Bahn)))".toList).map
+      (·.map fun t => t.leaves.map fun l => l.fields.word) = some [[some "U-Bahn".toList]] := by decide +kernel
 
 end TT.Lemmas.Read
